@@ -40,8 +40,9 @@ def main(tier, seed):
         shapes = E.curated_shapes()
         p = dict(nops=3, maxdev=1, bfs_depth=4, probe_every=7, timing_depth=12)
     else:
-        shapes = E.curated_shapes() + E.family_shapes()
-        p = dict(nops=4, maxdev=2, bfs_depth=9, probe_every=11, timing_depth=18)
+        fam = E.family_shapes()
+        shapes = E.curated_shapes() + fam
+        p = dict(nops=4, maxdev=2, bfs_depth=7, probe_every=11, timing_depth=18, light_names=[s["name"] for s in fam], light_nops=3, light_bfs=5)
     sigs = sig_shapes() + mixed_shapes()
     return E.run_check(PID, tier, seed, shapes=shapes + sigs, sig_names={s["name"] for s in sigs}, **p)
 
